@@ -3,6 +3,7 @@
   (lean/Atomman/C05.lean).  `K` is any linearly ordered field (ℚ, ℝ, …).
 -/
 import Proofs.C05_Lemmas
+import Proofs.C05_Hist
 import Mathlib.Analysis.Real.Sqrt
 import Mathlib.Data.Rat.Floor
 
@@ -455,6 +456,105 @@ theorem sqrtOK_real (v : M3 ℝ) (hdet : M3.det v ≠ 0) : SqrtOK Real.sqrt v :=
   obtain ⟨_, hly, hlz⟩ := sqrt_args_closed_form Real.sqrt v hdet (hs _ h0) (hs _ h1) (hs _ h2)
   exact ⟨hs _ h0, hs _ h1, hs _ h2, hs _ hly, hs _ (hlz (hs _ hly)).2⟩
 
+/-! ## histories on one object (model of lean/Atomman/C05_Hist.lean; cache coherence in Proofs/C05_Hist.lean) -/
+
+/-- **hist_wrap_reconstruct**: a `wrap` issued at any point of any history on a coherent object returns image
+    flags that reconstruct the positions held just before it, with the cell vectors held just before it, and
+    vanish along non-periodic directions. -/
+theorem hist_wrap_reconstruct (P : Params K) (ops : List (Op K)) (c0 : CSys K) (h0 : Coherent c0)
+    (hdet : M3.det (runC P c0 ops).1.box.vects ≠ 0) :
+    let c := (runC P c0 ops).1
+    let w := c.wrapC P
+    List.zipWith (fun p' f => p' + latticeVec c.box.vects f) w.2.pos w.1 = c.pos ∧
+    ∀ f ∈ w.1, (c.pbc.x = false → f.x = 0) ∧ (c.pbc.y = false → f.y = 0) ∧ (c.pbc.z = false → f.z = 0) := by
+  intro c w
+  obtain ⟨_, _, hc⟩ := runC_erase P ops c0 h0
+  obtain ⟨w1, w2, _⟩ := wrapC_spec P c hc
+  have e2 : w.2.pos = (c.erase.wrapS P).2.pos := by
+    show (c.wrapC P).2.pos = _
+    rw [← w2]; rfl
+  have e1 : w.1 = (c.erase.wrapS P).1 := w1
+  obtain ⟨r1, _, _, r4⟩ := wrap_reconstruct P.fl P.pad c.box hdet c.pbc c.pos
+  rw [e1, e2]
+  exact ⟨r1, r4⟩
+
+/-- **hist_wrap_inside**: a `wrap` issued at any point of any history leaves every atom inside the cell the
+    object then has — unless the clean-up of the `vects` setter removes a component of the lengthened cell
+    (`hclean`; it never does for a fully periodic system whose cell is already clean). -/
+theorem hist_wrap_inside (P : Params K) (hfl : IsFloor P.fl) (hpad : 0 < P.pad) (ops : List (Op K)) (c0 : CSys K)
+    (h0 : Coherent c0) (hdet : M3.det (runC P c0 ops).1.box.vects ≠ 0)
+    (hclean : let c := (runC P c0 ops).1
+      zeroSmall P.tiny (wrap P.fl P.pad c.box c.pbc c.pos).box.vects = (wrap P.fl P.pad c.box c.pbc c.pos).box.vects) :
+    let c := (runC P c0 ops).1
+    let w := c.wrapC P
+    ∀ p' ∈ w.2.pos, insideRel (w.2.box.cartToRel p') := by
+  intro c w
+  obtain ⟨_, _, hc⟩ := runC_erase P ops c0 h0
+  obtain ⟨_, w2, _⟩ := wrapC_spec P c hc
+  have e2 : w.2.pos = (wrap P.fl P.pad c.box c.pbc c.pos).pos := by
+    show (c.wrapC P).2.pos = _
+    have : (c.wrapC P).2.pos = (c.erase.wrapS P).2.pos := by rw [← w2]; rfl
+    rw [this]; rfl
+  have e3 : w.2.box = (wrap P.fl P.pad c.box c.pbc c.pos).box := by
+    show (c.wrapC P).2.box = _
+    have : (c.wrapC P).2.box = (c.erase.wrapS P).2.box := by rw [← w2]; rfl
+    rw [this]
+    show (⟨zeroSmall P.tiny (wrap P.fl P.pad c.box c.pbc c.pos).box.vects, _⟩ : Box K) = _
+    rw [hclean]
+    rfl
+  rw [e2, e3]
+  exact wrap_inside P.fl hfl P.pad hpad c.box hdet c.pbc c.pos
+
+/-- **normalizeS_eq_normalize**: `normalize` on the object is the function `normalize?` of the visible state
+    whenever the clean-up of the `vects` setter is inactive at its three writes (reversed cell, rebuilt cell,
+    wrapped cell): every `normalize_*` theorem then holds for the object at any point of any history. -/
+theorem normalizeS_eq_normalize (P : Params K) (s : Sys K)
+    (hc1 : triple s.box.vects < 0 → zeroSmall P.tiny (flipC s.box).vects = (flipC s.box).vects)
+    (hc2 : ∀ b2, abcBox? P.sqrt (flip s.box).vects = some b2 → zeroSmall P.tiny b2.vects = b2.vects)
+    (hc3 : ∀ b2, abcBox? P.sqrt (flip s.box).vects = some b2 →
+      zeroSmall P.tiny (wrap P.fl P.pad b2 s.pbc (s.pos.map (fun p => b2.relToCart ((flip s.box).cartToRel p)))).box.vects
+        = (wrap P.fl P.pad b2 s.pbc (s.pos.map (fun p => b2.relToCart ((flip s.box).cartToRel p)))).box.vects) :
+    s.normalizeS P = normalize? P.fl P.pad P.sqrt s.box s.pbc s.pos := by
+  -- the system after the optional reversal has the box `flip s.box`
+  have hs1 : (if triple s.box.vects < 0 then s.setBox P.tiny (flipC s.box).vects (flipC s.box).origin else s)
+      = (⟨flip s.box, s.pbc, s.pos⟩ : Sys K) := by
+    by_cases ht : triple s.box.vects < 0
+    · simp only [ht, if_true, Sys.setBox, flip, hc1 ht]
+    · simp only [ht, if_false, flip]
+  unfold Sys.normalizeS normalize?
+  rw [hs1]
+  simp only [Sys.rebuild]
+  cases hb : abcBox? P.sqrt (flip s.box).vects with
+  | none => rfl
+  | some b2 =>
+    have e2 : (⟨zeroSmall P.tiny b2.vects, b2.origin⟩ : Box K) = b2 := by rw [hc2 b2 hb]
+    simp only [e2, Sys.spos, List.map_map, Sys.wrapS]
+    have hw := hc3 b2 hb
+    simp only [Function.comp_def] at hw ⊢
+    rw [hw]
+
+/-- **hist_normalize**: at any point of any history on a coherent object, `normalize` returns what the
+    function `normalize?` returns for the visible state (clean-up inactive), and leaves the object as it was. -/
+theorem hist_normalize (P : Params K) (ops : List (Op K)) (c0 : CSys K) (h0 : Coherent c0)
+    (hc1 : let s := (runC P c0 ops).1.erase
+      triple s.box.vects < 0 → zeroSmall P.tiny (flipC s.box).vects = (flipC s.box).vects)
+    (hc2 : let s := (runC P c0 ops).1.erase
+      ∀ b2, abcBox? P.sqrt (flip s.box).vects = some b2 → zeroSmall P.tiny b2.vects = b2.vects)
+    (hc3 : let s := (runC P c0 ops).1.erase
+      ∀ b2, abcBox? P.sqrt (flip s.box).vects = some b2 →
+      zeroSmall P.tiny (wrap P.fl P.pad b2 s.pbc (s.pos.map (fun p => b2.relToCart ((flip s.box).cartToRel p)))).box.vects
+        = (wrap P.fl P.pad b2 s.pbc (s.pos.map (fun p => b2.relToCart ((flip s.box).cartToRel p)))).box.vects) :
+    let c := (runC P c0 ops).1
+    c.normalizeC P = normalize? P.fl P.pad P.sqrt c.box c.pbc c.pos ∧ (stepC P c .normalize).1 = c := by
+  intro c
+  obtain ⟨_, _, hc⟩ := runC_erase P ops c0 h0
+  refine ⟨?_, ?_⟩
+  · rw [normalizeC_spec P c hc]
+    exact normalizeS_eq_normalize P c.erase hc1 hc2 hc3
+  · show (stepC P c Op.normalize).1 = c
+    unfold stepC
+    cases c.normalizeC P <;> rfl
+
 /-! ## non-vacuity: concrete states meeting the hypotheses -/
 
 /-- a rational square root good enough for the 3-4-5 example cell. -/
@@ -470,6 +570,30 @@ example : SqrtOK sqrtQ (flip exBox).vects := by
 example : (normalize? Rat.floor (1/1000) sqrtQ exBox ⟨true, true, true⟩ exPos).isSome = true := by decide +kernel
 example : (wrap Rat.floor (1/1000) exBox ⟨true, false, true⟩ exPos).flags = [⟨0, 0, 0⟩, ⟨1, 0, 2⟩, ⟨0, 0, 0⟩] := by
   decide +kernel
+
+/-- a history on one object: look at the scaled positions, strain the cell slightly with the atoms following,
+    wrap, normalize, wrap again. -/
+def exPar : Params ℚ := ⟨Rat.floor, 1/1000, 1/1000000000, sqrtQ⟩
+def exHist : List (Op ℚ) :=
+  [.spos, .boxSet true ⟨⟨0, 3, 0⟩, ⟨4, 0, 0⟩, ⟨0, 0, 5⟩⟩ ⟨1, 1, 1001/1000⟩, .wrap, .normalize, .setPbc ⟨true, false, true⟩, .wrap]
+def exSys : CSys ℚ := ⟨exBox, none, ⟨true, true, true⟩, exPos⟩
+
+example : Coherent exSys := coherent_fresh _ _ _
+example : (runC exPar exSys exHist).2.length = 6 := by decide +kernel
+example : M3.det (runC exPar exSys exHist).1.box.vects ≠ 0 := by decide +kernel
+/-- the clean-up hypothesis of `hist_wrap_inside` holds on this history … -/
+example : let c := (runC exPar exSys exHist).1
+    zeroSmall exPar.tiny (wrap exPar.fl exPar.pad c.box c.pbc c.pos).box.vects
+      = (wrap exPar.fl exPar.pad c.box c.pbc c.pos).box.vects := by decide +kernel
+/-- … and fails where a component is below `tiny` of the largest one: the setter does remove it. -/
+example : zeroSmall exPar.tiny ⟨⟨4, 0, 0⟩, ⟨1/1000000000, 4, 0⟩, ⟨0, 0, 4⟩⟩ = (⟨⟨4, 0, 0⟩, ⟨0, 4, 0⟩, ⟨0, 0, 4⟩⟩ : M3 ℚ) := by
+  decide +kernel
+/-- the normalize observed in the history is the function `normalize?` of the visible state. -/
+example : (exSys.normalizeC exPar).map (fun z => (z.box, z.pos, z.flags, z.transform)) =
+    (normalize? exPar.fl exPar.pad exPar.sqrt exSys.box exSys.pbc exSys.pos).map
+      (fun z => (z.box, z.pos, z.flags, z.transform)) := by
+  decide +kernel
+example : (exSys.normalizeC exPar).isSome = true := by decide +kernel
 
 /-- at ℝ (real floor, real square root) every non-singular cell meets all hypotheses: normalize is
     defined and yields a right-handed LAMMPS cell. -/
